@@ -138,6 +138,10 @@ func (e *Engine) builtin(st *State, name string, args []Val, rt types.Type, in *
 			return formInt(int64(len(a.Elems))), ""
 		case *MapVal:
 			return e.A.App("len", rt, a), ""
+		case *Opaque:
+			if a.Fn == "builder.String" && len(a.Args) == 1 {
+				return a.Args[0], ""
+			}
 		}
 		return e.A.App(name, rt, args[0]), ""
 	case "recover":
@@ -328,6 +332,15 @@ func (e *Engine) model(st *State, name string, fn *ssa.Function, args []Val, rt 
 			}
 		}
 		return one(formInt(n))
+	case "(*strings.Builder).String":
+		// the string of the bytes written so far: only its length is tracked
+		n := int64(0)
+		for _, ev := range st.events {
+			if ev.Fn == "(*strings.Builder).WriteByte" && len(ev.Args) > 0 && valKey(ev.Args[0]) == valKey(args[0]) {
+				n++
+			}
+		}
+		return one(&Opaque{Key: fmt.Sprintf("builder.String(%s,%d)", valKey(args[0]), n), Type: rt, Fn: "builder.String", Args: []Val{formInt(n)}})
 	case "image.NewRGBA", "image.NewNRGBA", "image.NewRGBA64", "image.NewNRGBA64":
 		// a fresh image whose Rect is the argument; pixel storage is a fresh
 		// opaque slice (contract of the image package constructors)
